@@ -115,6 +115,14 @@ def recording_objective():
         def all_evaluations_finite(self, start=0):
             return all(fi and fo for _, fi, fo in self.log[start:])
 
+        def finite_on_finite_inputs(self, start=0):
+            """Hypothesis 'the objective is finite everywhere' as far as the solver probed it: no call with a FINITE input
+            produced a non-finite output.  (A non-finite INPUT is the solver's own doing and excuses nothing.)"""
+            return all(fo or not fi for _, fi, fo in self.log[start:])
+
+        def nonfinite_inputs(self, start=0, kinds=("value", "gradient")):
+            return sum(1 for k, fi, _ in self.log[start:] if k in kinds and not fi)
+
         def n_calls(self, kind, start=0):
             return sum(1 for k, _, _ in self.log[start:] if k == kind)
 
